@@ -19,7 +19,8 @@ class RScreen:
         self.tn = np.array([[TREAT[t] for t in r[1]] for r in rows], dtype=str)
         self.td = np.array([[0.0 if t == 0 else 1.0 for t in r[1]] for r in rows], dtype=float)
         self.sn = np.array(["smp%d" % r[0] for r in rows], dtype=str)
-        self.pn = np.array(["in_plate_%d" % r[2] for r in rows], dtype=str)
+        # (observed plates carry names longer than any label a generator makes up: they must come through untouched)
+        self.pn = np.array([("in_plate_%d" if not r[3] else "plate_observed_before_the_simulation_%d") % r[2] for r in rows], dtype=str)
         self.obs = np.array([0.11 + 0.013 * i for i in range(n)])
         self.mask = np.array([bool(r[3]) for r in rows])
         self.key2id = {}
